@@ -287,6 +287,9 @@ func (spec *Spec) Compile(ctx context.Context, interpreters Interpreters, force 
 		}
 
 		for _, b := range n.Branches.Branches {
+			if b == nil {
+				return errors.New("null branch in node '" + name + "'")
+			}
 			x, err := spec.PatternParser(spec.PatternSyntax, b.Pattern)
 			if err != nil {
 				return err
